@@ -334,8 +334,37 @@ def check(ctx):
                                   'reference is looked up in the referring module instead of the defining one, so a chain of references that crosses a module boundary resolves '
                                   'differently from the same definitions written in one module' % (ast.unparse(bad)[:110], found, call.func.attr, found_mod, start_mods[0]),
                                   stmt=norm_stmt(Model.enclosing_stmt(bad)))
-    if n6 < 2:
-        raise AnalysisError('C19.R6 examined only %d lookups whose module differs from the starting module (floor 2)' % n6)
+    # a resolver (resolve_type_descriptor, ...) follows references across modules and returns the descriptor only: the module it ended in is lost, so nothing taken from its
+    # result may be handed on together with the starting module to something that looks names up
+    n6r = 0
+    for g_ in base_cls.methods.values():
+        for a_ in walk_no_nested(g_):
+            if not (isinstance(a_, ast.Assign) and isinstance(a_.targets[0], ast.Name) and isinstance(a_.value, ast.Call) and isinstance(a_.value.func, ast.Attribute)
+                    and a_.value.func.attr.startswith('resolve_') and isinstance(a_.value.func.value, ast.Name) and a_.value.func.value.id == 'self'):
+                continue
+            found = a_.targets[0].id
+            start_mods = [x.id for x in a_.value.args if isinstance(x, ast.Name) and 'module' in x.id]
+            if not start_mods:
+                continue
+            n6r += 1
+            bad = None
+            for c_ in walk_no_nested(g_):
+                if not (isinstance(c_, ast.Call) and c_ is not a_.value and getattr(c_, 'lineno', 0) >= a_.lineno and isinstance(c_.func, ast.Attribute)
+                        and isinstance(c_.func.value, ast.Name) and c_.func.value.id == 'self'):
+                    continue
+                argv = list(c_.args) + [k.value for k in c_.keywords]
+                if any(found in names_in(x) for x in argv) and any(isinstance(x, ast.Name) and x.id in start_mods for x in argv):
+                    bad = c_
+                    break
+            ctx.instance('C19.R6', '%s: `%s = %s(...)` -- nothing taken from `%s` is looked up further in `%s`' % (Model.qual(g_), found, a_.value.func.attr, found, start_mods[0]),
+                         'ok' if bad is None else 'VIOLATION', node=a_, file=BASE)
+            if bad is not None:
+                ctx.violation('C19.R6', BASE, bad, Model.qual(g_),
+                              '`%s` hands on something taken from `%s`, which %s resolved through references and IMPORTS (possibly into another module) without telling where it ended, '
+                              'together with `%s`, the module the resolution started from: names inside the resolved type are then looked up in the referring module instead of the defining '
+                              'one' % (ast.unparse(bad)[:110], found, a_.value.func.attr, start_mods[0]), stmt=norm_stmt(Model.enclosing_stmt(bad)))
+    if n6 + n6r < 3:
+        raise AnalysisError('C19.R6 examined only %d lookups / resolutions (floor 3)' % (n6 + n6r))
     # the same for what is *remembered*: a container that was selected with the starting module (cache.setdefault(module_name, {}), self.compiled[module_name]) before a
     # lookup re-bound the module variable belongs to the starting module; a name taken from the descriptor the lookup found may live in another module, and filing it there
     # gives the starting module's own, different type of that name the remembered answer.
